@@ -1,8 +1,10 @@
 //! tv: runtime-monitoring harness for triomphe. One binary, one sub-command per engine.
 //! Output protocol: lines starting with "@@" are JSON records for the driver (/verif/check).
 
+mod conc;
 mod hist;
 mod shadow;
+mod thin;
 mod tk;
 mod util;
 
@@ -20,6 +22,8 @@ fn main() {
     let code = match args.engine.as_str() {
         "noop" => 0,
         "hist" => engine_hist(&args),
+        "thin" => engine_thin(&args),
+        "conc" => engine_conc(&args),
         other => {
             eprintln!("unknown engine {:?}", other);
             2
@@ -67,6 +71,104 @@ fn engine_hist(args: &Args) -> i32 {
         shadow::active(),
         shadow::checked_frees(),
         shadow::overflowed(),
+        jlist(&st.sample)
+    );
+    if nviol > 0 {
+        1
+    } else {
+        0
+    }
+}
+
+fn engine_thin(args: &Args) -> i32 {
+    let seed = args.u64("seed", 1);
+    let n = args.u64("n", 100);
+    let ops = args.u64("ops", 200) as usize;
+    let first = args.u64("first", 0);
+    let light = args.has("light");
+    let mut st = hist::Stats::new();
+    let mut nviol = 0;
+    let shapes = ["T8/T8", "Z/T8", "T32/T1", "T1/T32", "TB/TB", "T64/T8", "T8/T64", "Z16/T1"];
+    for k in first..first + n {
+        let hseed = seed.wrapping_mul(0x1000_0000).wrapping_add(k);
+        let shape = shapes[(k % shapes.len() as u64) as usize];
+        let r = match shape {
+            "T8/T8" => thin::run_one::<tk::T8, tk::T8>(hseed, ops, light, &mut st),
+            "Z/T8" => thin::run_one::<tk::Z, tk::T8>(hseed, ops, light, &mut st),
+            "T32/T1" => thin::run_one::<tk::T32, tk::T1>(hseed, ops, light, &mut st),
+            "T1/T32" => thin::run_one::<tk::T1, tk::T32>(hseed, ops, light, &mut st),
+            "TB/TB" => thin::run_one::<tk::TB, tk::TB>(hseed, ops, light, &mut st),
+            "T64/T8" => thin::run_one::<tk::T64, tk::T8>(hseed, ops, light, &mut st),
+            "T8/T64" => thin::run_one::<tk::T8, tk::T64>(hseed, ops, light, &mut st),
+            _ => thin::run_one::<tk::Z16, tk::T1>(hseed, ops, light, &mut st),
+        };
+        st.counts.bump(&format!("thin.shape.{}", shape));
+        if let Err((v, trace)) = r {
+            emit_violation(&v, "thin", seed, &format!("k={} shape={} ops={}", k, shape, ops), &trace);
+            nviol += 1;
+            if nviol >= 5 {
+                break;
+            }
+        }
+    }
+    println!(
+        "@@{{\"t\":\"stats\",\"engine\":\"thin\",\"counts\":{},\"shadow\":{},\"checked_frees\":{},\"overflow\":{},\"sample\":{}}}",
+        st.counts.json(),
+        shadow::active(),
+        shadow::checked_frees(),
+        shadow::overflowed(),
+        jlist(&st.sample)
+    );
+    if nviol > 0 {
+        1
+    } else {
+        0
+    }
+}
+
+fn engine_conc(args: &Args) -> i32 {
+    let seed = args.u64("seed", 1);
+    let n = args.u64("n", 100);
+    let first = args.u64("first", 0);
+    let len = args.u64("len", 8) as usize;
+    let delay = args.u64("delay", 1) as u8;
+    let scen = args.str("scen", "all");
+    let hooked = conc::install_hook(delay, seed);
+    let mut st = conc::CStats::new();
+    let mut nviol = 0;
+    for k in first..first + n {
+        let cseed = seed.wrapping_mul(0x1000_0000).wrapping_add(k).wrapping_mul(0x9E37_79B9_7F4A_7C15) >> 8;
+        let which = if scen == "all" { ["clonedrop", "uniqpoll", "cow", "unwraprace"][(k % 4) as usize].to_string() } else { scen.clone() };
+        let nthreads = 2 + ((k / 4) % 3) as usize;
+        let r = match which.as_str() {
+            "clonedrop" => match (k / 4) % 3 {
+                0 => conc::clonedrop(cseed, &conc::make_w1, nthreads, len, &mut st),
+                1 => conc::clonedrop(cseed, &conc::make_w2, nthreads, len, &mut st),
+                _ => conc::clonedrop(cseed, &conc::make_w2_fat, nthreads, len, &mut st),
+            },
+            "uniqpoll" => conc::uniqpoll(cseed, if scen == "all" { (k / 4) as usize } else { k as usize }, 1 + ((k / 32) % 2) as usize, &mut st),
+            "cow" => conc::cow(cseed, if scen == "all" { (k / 4) as usize } else { k as usize }, 1 + ((k / 12) % 2) as usize, &mut st),
+            _ => conc::unwraprace(cseed, 2 + ((k / 4) % 2) as usize, &mut st),
+        };
+        st.counts.bump("conc.executions");
+        if let Err((v, trace)) = r {
+            if v.oracle == "harness" {
+                eprintln!("harness problem: {}", v.msg);
+                return 3;
+            }
+            emit_violation(&v, "conc", seed, &format!("k={} scen={} threads={} len={} delay={}", k, which, nthreads, len, delay), &trace);
+            nviol += 1;
+            if nviol >= 3 {
+                break;
+            }
+        }
+    }
+    println!(
+        "@@{{\"t\":\"stats\",\"engine\":\"conc\",\"counts\":{},\"sets\":{{\"interleavings\":{},\"nontrivial_interleavings\":{}}},\"hooked\":{},\"sample\":{}}}",
+        st.counts.json(),
+        jset(&st.ileave),
+        jset(&st.nontrivial),
+        hooked,
         jlist(&st.sample)
     );
     if nviol > 0 {
